@@ -93,6 +93,8 @@ pub struct SrcLog {
     pub max_req: usize,
     pub bytes_delivered: usize,
     pub eof_reads: usize,
+    /// (current, answer) of a growth policy answer that was not larger than the current size or absurdly large
+    pub bad_policy: Option<(usize, usize)>,
 }
 
 pub type SharedLog = Rc<RefCell<SrcLog>>;
